@@ -318,6 +318,7 @@ def chk_grid():
         "Bin x Bin": lambda: hg.Bin(3, 0.0, 3.0, fx, hg.Bin(3, 0.0, 3.0, fy)),
         "SparselyBin x SparselyBin": lambda: hg.SparselyBin(1.0, fx, hg.SparselyBin(1.0, fy)),
         "Bin x SparselyBin": lambda: hg.Bin(3, 0.0, 3.0, fx, hg.SparselyBin(1.0, fy)),
+        "IrregularlyBin x IrregularlyBin": lambda: hg.IrregularlyBin([0.0, 1.0, 2.0, 3.0], fx, hg.IrregularlyBin([0.0, 1.0, 2.0, 3.0], fy)),
     }
     for name, mk in trees.items():
         h = mk()
@@ -334,12 +335,34 @@ def chk_grid():
         for p, w in zip(pts, ws):
             if any(math.isnan(c) for c in p):
                 continue
-            inx = name.startswith("Sparsely") or 0.0 <= p[0] < 3.0
-            iny = name.endswith("SparselyBin") or 0.0 <= p[1] < 3.0
+            inx = name.startswith(("Sparsely", "Irregularly")) or 0.0 <= p[0] < 3.0
+            iny = name.endswith(("SparselyBin", "IrregularlyBin")) or 0.0 <= p[1] < 3.0
             if inx and iny:
                 want += w
         if abs(float(grid.sum()) - want) > 1e-9:
             return f"{name}: grid holds {float(grid.sum())}, the in-range weight is {want}"
+        # the x / y projections of the two-dimensional histogram methods hold exactly the in-range weights, bin by bin
+        if hasattr(h, "project_on_x") and hasattr(h, "project_on_y") and hasattr(h, "xy_ranges_grid"):
+            try:
+                _, _, g2 = h.xy_ranges_grid()
+                hx, hy = h.project_on_x(), h.project_on_y()
+            except Exception as e:
+                return f"{name}: projections raised {e!r}"
+
+            def contents(p):
+                if isinstance(getattr(p, "bins", None), dict):
+                    lo, hi = min(p.bins), max(p.bins)
+                    return [p.bins[k].entries if k in p.bins else 0.0 for k in range(lo, hi + 1)]
+                if hasattr(p, "values"):
+                    return [v.entries for v in p.values]
+                return [v.entries for _, v in p.bins]
+
+            cx, cy = contents(hx), contents(hy)
+            for what, got, ref in (("x", cx, g2.sum(axis=0)), ("y", cy, g2.sum(axis=1))):
+                if abs(sum(got) - want) > 1e-9:
+                    return f"{name}: the {what} projection holds {sum(got)}, the in-range weight is {want}"
+                if len(got) == len(ref) and any(abs(a - float(b)) > 1e-9 for a, b in zip(got, ref)):
+                    return f"{name}: the {what} projection {got} differs from the grid's sums {[float(b) for b in ref]}"
         # projections: column sums = per-x-bin in-range entries of the inner histograms
         if name == "Bin x Bin":
             for i, v in enumerate(h.values):
